@@ -450,7 +450,21 @@ fn fuzz(corpus_path: &str, seed: u64, iters: u64, out_path: &str) {
             if rng.below(3) == 0 { a = mutate(a, da, &mut rng, 0); } else { i = mutate(i, di, &mut rng, 0); }
         }
         // the property speaks about syntactically valid items: anything else is not an input of the macro
-        if syn::parse2::<syn::Item>(i.clone()).is_err() { continue; }
+        let Ok(parsed) = syn::parse2::<syn::Item>(i.clone()) else { continue };
+        {
+            // a trait object without `dyn` (`T +`) is accepted by syn but is not Rust 2021 syntax
+            use syn::visit::Visit;
+            struct Bare(bool);
+            impl<'ast> Visit<'ast> for Bare {
+                fn visit_type_trait_object(&mut self, t: &'ast syn::TypeTraitObject) {
+                    if t.dyn_token.is_none() { self.0 = true; }
+                    syn::visit::visit_type_trait_object(self, t);
+                }
+            }
+            let mut b = Bare(false);
+            b.visit_item(&parsed);
+            if b.0 { continue; }
+        }
         valid += 1;
         let derive_form = rng.below(3) == 0;
         let c = if derive_form {
@@ -501,6 +515,15 @@ fn main() {
     let args: Vec<String> = std::env::args().collect();
     if args.len() == 2 && args[1] == "tables" {
         tables();
+        return;
+    }
+    if args.len() == 3 && args[1] == "raw" {
+        // the raw text of the expansion of every case (one line per case), for a second opinion by rustc's parser
+        std::panic::set_hook(Box::new(|_| {}));
+        read_cases(&args[2], |c| match expand_real(&c) {
+            Ok(ts) => println!("{}", ts.to_string().replace('\n', " ")),
+            Err(e) => println!("<{e}>"),
+        });
         return;
     }
     if args.len() >= 3 && args[1] == "corpus" {
